@@ -459,6 +459,8 @@ class SpecEval:
         if name == 'as':
             v = self.eval(args[0], env)
             tk = self.type_key(args[1])
+            if not env.bound:
+                self.ex.assume_payload_refs(env.live, tk, v.leaves[0])
             return Val(tk, m.any_get(tk, v.leaves[0]))
         if name in ('min', 'max'):
             a = self.eval_term(args[0], env)
@@ -521,6 +523,14 @@ class SpecEval:
             a = self.eval(args[0], env)
             b = self.eval(args[0], env.with_state(env.old))
             return self.equal(a, b)
+        if name == 'seen':
+            # seen(k): key k was already visited by the map-range loop the invariant belongs to
+            if env.loop_head is None:
+                raise SpecError('seen() outside a loop invariant')
+            iid = self.ex.loop_iterator(env.frame, env.loop_head)
+            if iid is None or iid not in env.st.iters:
+                raise SpecError('seen() in a loop that does not range over a map')
+            return z3.Select(env.st.iters[iid][0], self.eval_term(args[0], env))
         if name == 'ref':
             return self.term(self.eval(args[0], env))
         if name == 'arr':
@@ -596,6 +606,7 @@ class SpecEval:
         key = (sd.name, body.get_id())
         ent = self.ex.view_versions.get(key)
         F = m.uf('view_' + sd.name, *([m.Int] + [b.sort() for b in bvars] + [body.sort()]))
+        self.last_view = (F, None)
         if ent is None:
             ver = z3.IntVal(len(self.ex.view_versions) + 1)
             self.ex.view_versions[key] = (ver, body)
@@ -605,6 +616,7 @@ class SpecEval:
                 self.ex.axioms.append(F(ver) == body)
         else:
             ver = ent[0]
+        self.last_view = (F, ver)
         return F(ver, *actual)
 
     def bigval(self, v, env, sort):
@@ -664,6 +676,27 @@ class SpecEval:
             if fn == 'entries':
                 v = self.eval(ast[2][0], env)
                 return [(n, v.leaves[0]) for n in sorted(ex.map_heaps(v.t))]
+            if fn == 'cellsof':
+                # the big integers held by the balance cache of the given programState
+                stp = self.eval(ast[2][0], env)
+                cb = self.select(stp, 'CachedBalances', env)
+                u1, K1, V1 = ex.map_parts(cb.t)
+                u2, K2, V2 = ex.map_parts(V1)
+                st0 = env.st
+                dom1 = z3.Select(st0.heap('MD|%s' % u1), cb.leaves[0])
+                val1 = z3.Select(st0.heap('MV|%s||Int' % u1), cb.leaves[0])
+                md2 = st0.heap('MD|%s' % u2)
+                mv2 = st0.heap('MV|%s||Int' % u2)
+                a = z3.Const('a!cell', m.Str)
+                c = z3.Const('c!cell', m.Str)
+
+                def holds(r, cbref=cb.leaves[0]):
+                    inner = z3.Select(val1, a)
+                    return z3.Exists([a, c], z3.And(cbref != 0, z3.Select(dom1, a), inner != 0, z3.Select(z3.Select(md2, inner), c),
+                                                    z3.Select(z3.Select(mv2, inner), c) == r))
+                from .exec import PredLoc
+                key = ('cellsof', cb.leaves[0].get_id(), dom1.get_id(), val1.get_id(), md2.get_id(), mv2.get_id())
+                return [('H|bigint||Int', PredLoc(holds, key))]
             if fn == 'allof':
                 # allof(T): every object of struct type T (whole heap family)
                 tk = self.type_key(ast[2][0])
